@@ -10,7 +10,7 @@ from ..cfg import build_cfg, contains_call
 from ..excflow import ExcFlow
 from ..fold import Folder, Regex, Unfoldable, byteset_str
 from ..fsm import ScannerFSM
-from ..model import FuncInfo, Model, dotted, unparse, walk_no_nested
+from ..model import AnchorMissing, FuncInfo, Model, dotted, unparse, walk_no_nested
 from ..report import Report, Rule
 from ..util import site
 
@@ -464,3 +464,34 @@ def eof_flush(model: Model, rep: Report, rid: str) -> None:
         first = nt.node.body[1]  # type: ignore[attr-defined]
     okfirst = isinstance(first, ast.If) and unparse(first.test) == "self.eof" and any(isinstance(x, ast.Raise) for x in first.body)
     r.check(okfirst, site(nt, first) if first is not None else site(nt), nt.qualname, "a call after the latch raises PSEOF immediately", why="no `if self.eof: raise PSEOF` at entry")
+
+
+def refill_before_read_rule(model: Model, rep: Report, rid: str, f: FuncInfo) -> None:
+    """Line readers: inside the read loop the buffer is refilled before it is looked at, on every path of an iteration
+    (a look-ahead at the byte after a CR must not read the exhausted buffer: the LF would become a line of its own)."""
+    import ast as _ast
+
+    from ..cfg import build_cfg
+
+    r = rep.rule(rid, "TYPESTATE", f"{f.name}: within an iteration of the read loop every look at self.buf comes after self.fillbuf()", 2)
+    loops = [n for n in walk_no_nested(f.node) if isinstance(n, _ast.While)]
+    if not loops:
+        raise AnchorMissing(f"{f.qualname}: read loop not found")
+    lp = loops[0]
+    fn = _ast.FunctionDef(name="_iter", args=f.node.args, body=lp.body, decorator_list=[], lineno=lp.lineno, col_offset=0)  # type: ignore[attr-defined]
+    g = build_cfg(fn, exc_edges=False)
+
+    def is_fill(n) -> bool:
+        return n.ast is not None and n.kind == "stmt" and any(isinstance(c, _ast.Call) and (dotted(c.func) or "") == "self.fillbuf" for c in [n.ast] + list(_ast.walk(n.ast)))
+
+    k = 0
+    for n in g.nodes:
+        if n.ast is None or n.kind not in ("stmt", "test"):
+            continue
+        if not any(isinstance(x, _ast.Attribute) and x.attr == "buf" and isinstance(x.value, _ast.Name) and x.value.id == "self" and isinstance(x.ctx, _ast.Load) for x in _ast.walk(n.ast)):
+            continue
+        k += 1
+        wit = g.all_path_pass(g.entry, is_fill, until=[n.id])
+        r.check(wit is None, site(f, n.ast), f.qualname, f"`{unparse(n.ast)[:60]}` reads the buffer after the refill of this iteration", why="a path from the top of the iteration reaches this read without self.fillbuf(): when the previous iteration consumed the buffer's last byte (a CR), the look-ahead sees an empty slice and the LF of a CR LF pair is returned as a separate, empty line")
+    if k == 0:
+        raise AnchorMissing(f"{f.qualname}: no buffer read in the loop")
